@@ -231,6 +231,8 @@ impl TxPoolController {
 
     /// Notify new uncle
     pub fn notify_new_uncle(&self, uncle: UncleBlockView) -> Result<(), AnyError> {
+        #[cfg(feature = "verif-hooks")]
+        crate::verif::work(4);
         send_notify!(self, NewUncle, uncle)
     }
 
@@ -976,6 +978,8 @@ async fn process(mut service: TxPoolService, message: Message) {
         }
         Message::NewUncle(Notify { arguments: uncle }) => {
             service.receive_candidate_uncle(uncle).await;
+            #[cfg(feature = "verif-hooks")]
+            crate::verif::work(5);
         }
         Message::ClearPool(Request {
             responder,
